@@ -228,10 +228,26 @@ class Verifier(Engine):
         if c.opts.get("block"):
             # block contract: only the statement with the given header is verified, from an arbitrary pre-state that
             # satisfies `requires`; every name in `vars` is an arbitrary value (everything else of the function is dropped)
-            found = [n for n in ast.walk(fsrc.node) if isinstance(n, ast.stmt) and stmt_header(n) == c.opts["block"]]
-            if len(found) != 1:
-                raise CheckerError("block contract: %d statements match %r in %s" % (len(found), c.opts["block"], c.func))
-            body = [found[0]]
+            if isinstance(c.opts["block"], (tuple, list)):
+                # a RANGE of statements of one statement list: from the statement with the first header to the one with the second
+                first, last = c.opts["block"]
+                found = []
+                for n in ast.walk(fsrc.node):
+                    for fld in ("body", "orelse", "finalbody"):
+                        lst = getattr(n, fld, None)
+                        if isinstance(lst, list) and lst and isinstance(lst[0], ast.stmt):
+                            hs = [stmt_header(x) for x in lst]
+                            if first in hs and last in hs[hs.index(first):]:
+                                i0 = hs.index(first)
+                                found.append(lst[i0:i0 + hs[i0:].index(last) + 1])
+                if len(found) != 1:
+                    raise CheckerError("block contract: %d statement ranges match %r in %s" % (len(found), c.opts["block"], c.func))
+                body = found[0]
+            else:
+                found = [n for n in ast.walk(fsrc.node) if isinstance(n, ast.stmt) and stmt_header(n) == c.opts["block"]]
+                if len(found) != 1:
+                    raise CheckerError("block contract: %d statements match %r in %s" % (len(found), c.opts["block"], c.func))
+                body = [found[0]]
             rec["block"] = c.opts["block"]
             rec["dropped"] = "everything outside the block (treated as an arbitrary pre-state satisfying the block's requires)"
             for text, f in self.spec_conj(c.opts.get("block_requires", []), st, None, fx):
